@@ -107,6 +107,8 @@ def check_function(ctx, where, node, label, is_template=False):
             guard = enclosing_tests(par, p)
             if any("b'$'" in g and 'pattern' in g for g in guard):
                 ctx.holds(rule, where, st, 'len(raw) only under the end-of-string marker guard (read-to-end field)', line, clause='a')
+            elif in_rejecting_test(par, p):
+                ctx.holds(rule, where, st, 'bounds check: len(raw) only decides whether to raise', line, clause='a')
             else:
                 ctx.violation(rule, where, st, 'the total length of the input is used outside the end-of-string shortcut: appended bytes change the result', line, clause='a')
             continue
@@ -146,6 +148,21 @@ def check_function(ctx, where, node, label, is_template=False):
             continue
         ctx.undecided(rule, where, st, 'use of the input buffer not recognised (%s)' % type(p).__name__, line, clause='a')
     return n_uses
+
+
+def in_rejecting_test(par, node):
+    """node sits in the test of an ``if`` whose body only raises, or in an assert"""
+    cur = node
+    while id(cur) in par:
+        p = par[id(cur)]
+        if isinstance(p, ast.Assert) and cur is p.test:
+            return True
+        if isinstance(p, ast.If) and cur is p.test:
+            return all(isinstance(s, ast.Raise) for s in p.body) and not p.orelse
+        if isinstance(p, ast.stmt):
+            return False
+        cur = p
+    return False
 
 
 def enclosing_tests(par, node):
@@ -231,7 +248,25 @@ def check(ctx):
             raise Undecided('anchor Packet.%s not found' % name)
         ctx.unit('functions')
         total_uses += check_function(ctx, fi, fi.node, fi.qual)
-        calls += check_child_cursors(ctx, fi, fi.node, fi.qual, pk)
+        if name == 'unpack_impl':
+            calls += check_child_cursors(ctx, fi, fi.node, fi.qual, pk)
+    # the entry point hands the caller's buffer and start offset to the driver unchanged
+    from .c12 import check_packet_unpack
+    check_packet_unpack(ctx, 'R14-entry-offset')
+    calls += 1
+    # helpers of the field modules that receive the buffer are held to the same rules
+    seen_ids = set(seen)
+    from ..effects import phase_of
+    for fi in sorted(repo.functions.values(), key=lambda f: f.id):
+        if fi.id in seen_ids or fi.module not in ('field', 'structural_fields', 'util') or phase_of(repo, fi)[0] != 'run':
+            continue
+        params = [a.arg for a in fi.node.args.args]
+        if 'raw' in params and fi.node.name not in ('unpack', 'unpack_noop') and not fi.node.name.startswith('iterative'):
+            from ..model import is_placeholder
+            if is_placeholder(fi):
+                continue
+            ctx.unit('helpers_with_raw')
+            total_uses += check_function(ctx, fi, fi.node, fi.qual)
     for t in repo.templates():
         if t.tree is None:
             ctx.undecided('R14-raw-relative-to-cursor', t.func, 'template at line %d' % t.lineno, 'does not parse: %s' % t.error, t.lineno)
@@ -257,8 +292,25 @@ def check(ctx):
             D.check_innermost(ctx, 'R14-entry-offset', d)
     # relative positioning is computed from the reference point (innermost-pkt-pos / cursor),
     # never from the absolute offset alone (C10 rules b, c on Move)
-    from .c10 import check_move
+    from .c10 import check_move, check_sequence_pads
     check_move(ctx)
+    check_sequence_pads(ctx)
+    # (c) the cursor never moves backwards: sized reads carry the exact-length guard (a negative
+    # size would make later fields re-read bytes before the cursor), C06 rule b
+    from . import c06
+    dci = repo.cls('Data')
+    sel = c06.check_selection(ctx)
+    done_ = set()
+    for kind in ('int', 'field', 'callable', 'expression'):
+        t = sel.get(kind)
+        if t is None:
+            continue
+        f_ = repo.method(dci, t)
+        key = (f_.id, 'callable' if kind == 'expression' else kind)
+        if key in done_:
+            continue
+        done_.add(key)
+        c06.classify_sized(ctx, dci, f_, 'callable' if kind == 'expression' else kind)
     # list the absolute constructs (not flagged)
     mv = repo.cls('Move').methods.get('unpack')
     if mv is not None:
